@@ -116,6 +116,7 @@ def main(argv=None):
     t0 = time.time()
     tier = a.tier if a.tier in ("quick", "thorough") else "quick"
     timeout_ms = 10000 if tier == "quick" else 60000
+    os.environ["PYVC_TIER"] = tier        # read by pyvc.verify (quick_cases / thorough_cases / thorough_only); inherited by the pool
     types, contracts, specfuns, lemmas = registry.load()
     props = registry.closure(prop)
     if a.replay:
